@@ -7,6 +7,13 @@
 import SqLemmas.ParseSpec
 namespace Sq
 
+/-- arithmetic on token-list lengths -/
+macro "lenarith" : tactic =>
+  `(tactic| first
+    | omega
+    | (simp only [List.length_append, List.length_cons, List.length_nil, List.length_singleton]; omega)
+    | (simp only [List.length_append, List.length_cons, List.length_nil, List.length_singleton] at *; omega))
+
 theorem peekTy_cons (t : Token) (ts : List Token) : peekTy (t :: ts) = some t.ty := rfl
 theorem peekTy_nil : peekTy [] = none := rfl
 
@@ -216,11 +223,14 @@ theorem peekTy_append_ne (ts tl : List Token) (h : ts ≠ []) : peekTy (ts ++ tl
 mutual
 
 theorem cExpr : ∀ {m a ts t b nxt}, RExpr m a ts t b nxt →
-    ∃ n, ∀ f, n ≤ f → ∀ tl, peekTy tl = nxt → pExpr f m a (ts ++ tl) = .ok ((t, b), tl)
+    ∃ n, n ≤ 2 * ts.length + 1 ∧ ∀ f, n ≤ f → ∀ tl, peekTy tl = nxt → pExpr f m a (ts ++ tl) = .ok ((t, b), tl)
   | _, _, _, _, _, _, .mk (m := m) (a := a) (ts0 := ts0) (ts := ts) hp hs => by
-    obtain ⟨n1, h1⟩ := cPrim hp
-    obtain ⟨n2, h2⟩ := cSpine hs
-    refine ⟨max n1 n2 + 1, fun f hf tl htl => ?_⟩
+    obtain ⟨n1, b1, h1⟩ := cPrim hp
+    obtain ⟨n2, b2, h2⟩ := cSpine hs
+    have hl0 : 1 ≤ ts0.length := by
+      obtain ⟨hd, r, e, _⟩ := rprim_head hp
+      subst e; simp
+    refine ⟨max n1 n2 + 1, by lenarith, fun f hf tl htl => ?_⟩
     obtain ⟨f', rfl, hf'⟩ := succ_of_le hf
     have e1 := h1 f' (by omega) (ts ++ tl) (by rw [peekTy_append, htl])
     have e2 := h2 f' (by omega) tl htl
@@ -228,28 +238,28 @@ theorem cExpr : ∀ {m a ts t b nxt}, RExpr m a ts t b nxt →
     exact e2
 
 theorem cPrim : ∀ {ts t la}, RPrim ts t la →
-    ∃ n, ∀ f, n ≤ f → ∀ tl, peekTy tl = la → pPrefix f (ts ++ tl) = .ok (t, tl)
+    ∃ n, n ≤ 2 * ts.length ∧ ∀ f, n ≤ f → ∀ tl, peekTy tl = la → pPrefix f (ts ++ tl) = .ok (t, tl)
   | _, _, _, .atom (t := t) (e := e) ha => by
-    refine ⟨1, fun f hf tl _ => ?_⟩
+    refine ⟨1, by lenarith, fun f hf tl _ => ?_⟩
     obtain ⟨f', rfl, _⟩ := succ_of_le hf
     have hr := not_reserved_of_atom t e ha
     rw [List.singleton_append]
     exact pPrefix_atom f' t e tl ha
   | _, _, _, .name (t := t) ht h1 h2 => by
-    refine ⟨1, fun f hf tl htl => ?_⟩
+    refine ⟨1, by lenarith, fun f hf tl htl => ?_⟩
     obtain ⟨f', rfl, _⟩ := succ_of_le hf
     rw [List.singleton_append, pPrefix]
     subst htl
     simp [ht, reservedUnused, h1, h2]
   | _, _, _, .call0 (n := n) (lp := lp) (rp := rp) hn hl hr => by
-    refine ⟨1, fun f hf tl _ => ?_⟩
+    refine ⟨1, by lenarith, fun f hf tl _ => ?_⟩
     obtain ⟨f', rfl, _⟩ := succ_of_le hf
     simp only [List.cons_append, List.nil_append]
     rw [pPrefix]
     simp [hn, reservedUnused, peekTy, hl, hr]
   | _, _, _, .call (n := n) (lp := lp) (ts := ts) hn hl ha => by
-    obtain ⟨n1, h1⟩ := cArgs ha
-    refine ⟨n1 + 1, fun f hf tl _ => ?_⟩
+    obtain ⟨n1, b1, h1⟩ := cArgs ha
+    refine ⟨n1 + 1, by lenarith, fun f hf tl _ => ?_⟩
     obtain ⟨f', rfl, hf'⟩ := succ_of_le hf
     have e1 := h1 f' hf' tl
     have hne := rargs_peek ha tl .RPAREN rfl
@@ -257,26 +267,26 @@ theorem cPrim : ∀ {ts t la}, RPrim ts t la →
     rw [pPrefix]
     simp [hn, name_not_res, peekTy_cons, hl, hne, e1]
   | _, _, _, .lam1 (n := n) (lam := lam) (ts := ts) hn hl he => by
-    obtain ⟨n1, h1⟩ := cExpr he
-    refine ⟨n1 + 1, fun f hf tl htl => ?_⟩
+    obtain ⟨n1, b1, h1⟩ := cExpr he
+    refine ⟨n1 + 1, by lenarith, fun f hf tl htl => ?_⟩
     obtain ⟨f', rfl, hf'⟩ := succ_of_le hf
     have e1 := h1 f' hf' tl htl
     simp only [List.cons_append]
     rw [pPrefix]
     simp [hn, name_not_res, peekTy_cons, hl, e1]
   | _, _, _, .paren (lp := lp) (ts := ts) (rp := rp) hl he hr => by
-    obtain ⟨n1, h1⟩ := cExpr he
-    refine ⟨n1 + 1, fun f hf tl _ => ?_⟩
+    obtain ⟨n1, b1, h1⟩ := cExpr he
+    refine ⟨n1 + 1, by lenarith, fun f hf tl _ => ?_⟩
     obtain ⟨f', rfl, hf'⟩ := succ_of_le hf
     have e1 := h1 f' hf' (rp :: tl) (by rw [peekTy_cons, hr])
     simp only [List.cons_append, List.append_assoc, List.nil_append]
     rw [pPrefix]
     simp [hl, lparen_not_res, e1, peekTy_cons, hr]
   | _, _, _, .lamN (lp := lp) (ts0 := ts0) (comma := comma) (ps := ps) (lam := lam) (body := body) hl he0 hc hp hlam hb => by
-    obtain ⟨n1, h1⟩ := cExpr he0
-    obtain ⟨n2, h2⟩ := cParams hp
-    obtain ⟨n3, h3⟩ := cExpr hb
-    refine ⟨max n1 (max n2 n3) + 1, fun f hf tl htl => ?_⟩
+    obtain ⟨n1, b1, h1⟩ := cExpr he0
+    obtain ⟨n2, b2, h2⟩ := cParams hp
+    obtain ⟨n3, b3, h3⟩ := cExpr hb
+    refine ⟨max n1 (max n2 n3) + 1, by lenarith, fun f hf tl htl => ?_⟩
     obtain ⟨f', rfl, hf'⟩ := succ_of_le hf
     have e1 := h1 f' (by omega) (comma :: ps ++ lam :: body ++ tl) (by simp [peekTy_cons, hc])
     have e2 := h2 f' (by omega) (lam :: body ++ tl)
@@ -286,14 +296,14 @@ theorem cPrim : ∀ {ts t la}, RPrim ts t la →
     have hcr : comma.ty ≠ Tk.RPAREN := by rw [hc]; decide
     simp [hl, lparen_not_res, e1, peekTy_cons, hcr, eat, hc, e2, hlam, e3]
   | _, _, _, .list0 (lb := lb) (rb := rb) hl hr => by
-    refine ⟨1, fun f hf tl _ => ?_⟩
+    refine ⟨1, by lenarith, fun f hf tl _ => ?_⟩
     obtain ⟨f', rfl, _⟩ := succ_of_le hf
     simp only [List.cons_append, List.nil_append]
     rw [pPrefix]
     simp [hl, lbracket_not_res, peekTy_cons, hr]
   | _, _, _, .list (lb := lb) (ts := ts) hl ha => by
-    obtain ⟨n1, h1⟩ := cArgs ha
-    refine ⟨n1 + 1, fun f hf tl _ => ?_⟩
+    obtain ⟨n1, b1, h1⟩ := cArgs ha
+    refine ⟨n1 + 1, by lenarith, fun f hf tl _ => ?_⟩
     obtain ⟨f', rfl, hf'⟩ := succ_of_le hf
     have e1 := h1 f' hf' tl
     have hne := rargs_peek ha tl .RBRACKET rfl
@@ -301,14 +311,14 @@ theorem cPrim : ∀ {ts t la}, RPrim ts t la →
     rw [pPrefix]
     simp [hl, lbracket_not_res, hne, e1]
   | _, _, _, .dict0 (lb := lb) (rb := rb) hl hr => by
-    refine ⟨1, fun f hf tl _ => ?_⟩
+    refine ⟨1, by lenarith, fun f hf tl _ => ?_⟩
     obtain ⟨f', rfl, _⟩ := succ_of_le hf
     simp only [List.cons_append, List.nil_append]
     rw [pPrefix]
     simp [hl, lbrace_not_res, peekTy_cons, hr]
   | _, _, _, .dict (lb := lb) (ts := ts) hl hd => by
-    obtain ⟨n1, h1⟩ := cDict hd
-    refine ⟨n1 + 1, fun f hf tl _ => ?_⟩
+    obtain ⟨n1, b1, h1⟩ := cDict hd
+    refine ⟨n1 + 1, by lenarith, fun f hf tl _ => ?_⟩
     obtain ⟨f', rfl, hf'⟩ := succ_of_le hf
     have e1 := h1 f' hf' tl
     have hne := rdict_peek hd tl .RBRACE rfl
@@ -316,16 +326,16 @@ theorem cPrim : ∀ {ts t la}, RPrim ts t la →
     rw [pPrefix]
     simp [hl, lbrace_not_res, hne, e1]
   | _, _, _, .neg (mi := mi) (ts := ts) hm he => by
-    obtain ⟨n1, h1⟩ := cExpr he
-    refine ⟨n1 + 1, fun f hf tl htl => ?_⟩
+    obtain ⟨n1, b1, h1⟩ := cExpr he
+    refine ⟨n1 + 1, by lenarith, fun f hf tl htl => ?_⟩
     obtain ⟨f', rfl, hf'⟩ := succ_of_le hf
     have e1 := h1 f' hf' tl htl
     simp only [List.cons_append]
     rw [pPrefix]
     simp [hm, minus_not_res, e1]
   | _, _, _, .not (nt := nt) (ts := ts) hn he => by
-    obtain ⟨n1, h1⟩ := cExpr he
-    refine ⟨n1 + 1, fun f hf tl htl => ?_⟩
+    obtain ⟨n1, b1, h1⟩ := cExpr he
+    refine ⟨n1 + 1, by lenarith, fun f hf tl htl => ?_⟩
     obtain ⟨f', rfl, hf'⟩ := succ_of_le hf
     have e1 := h1 f' hf' tl htl
     simp only [List.cons_append]
@@ -333,16 +343,16 @@ theorem cPrim : ∀ {ts t la}, RPrim ts t la →
     simp [hn, not_not_res, e1]
 
 theorem cSpine : ∀ {m a l b ts t bt nxt}, RSpine m a l b ts t bt nxt →
-    ∃ n, ∀ f, n ≤ f → ∀ tl, peekTy tl = nxt → pLoop f m a l b (ts ++ tl) = .ok ((t, bt), tl)
+    ∃ n, n ≤ 2 * ts.length + 1 ∧ ∀ f, n ≤ f → ∀ tl, peekTy tl = nxt → pLoop f m a l b (ts ++ tl) = .ok ((t, bt), tl)
   | _, _, _, _, _, _, _, _, .nil (m := m) (a := a) hstop => by
-    refine ⟨1, fun f hf tl htl => ?_⟩
+    refine ⟨1, by lenarith, fun f hf tl htl => ?_⟩
     obtain ⟨f', rfl, _⟩ := succ_of_le hf
     rw [List.nil_append]
     exact pLoop_stops f' m a _ _ tl _ hstop htl
   | _, _, _, _, _, _, _, _, .bin (o := o) (tsr := tsr) (rest := rest) hd hk he hs => by
-    obtain ⟨n1, h1⟩ := cExpr he
-    obtain ⟨n2, h2⟩ := cSpine hs
-    refine ⟨max n1 n2 + 1, fun f hf tl htl => ?_⟩
+    obtain ⟨n1, b1, h1⟩ := cExpr he
+    obtain ⟨n2, b2, h2⟩ := cSpine hs
+    refine ⟨max n1 n2 + 1, by lenarith, fun f hf tl htl => ?_⟩
     obtain ⟨f', rfl, hf'⟩ := succ_of_le hf
     have e1 := h1 f' (by omega) (rest ++ tl) (by rw [peekTy_append, htl])
     have e2 := h2 f' (by omega) tl htl
@@ -351,9 +361,9 @@ theorem cSpine : ∀ {m a l b ts t bt nxt}, RSpine m a l b ts t bt nxt →
     simp only [hd, hk, e1]
     exact e2
   | _, _, _, _, _, _, _, _, .notin (o := o) (i := i) (tsr := tsr) (rest := rest) ho hd hi he hs => by
-    obtain ⟨n1, h1⟩ := cExpr he
-    obtain ⟨n2, h2⟩ := cSpine hs
-    refine ⟨max n1 n2 + 1, fun f hf tl htl => ?_⟩
+    obtain ⟨n1, b1, h1⟩ := cExpr he
+    obtain ⟨n2, b2, h2⟩ := cSpine hs
+    refine ⟨max n1 n2 + 1, by lenarith, fun f hf tl htl => ?_⟩
     obtain ⟨f', rfl, hf'⟩ := succ_of_le hf
     have e1 := h1 f' (by omega) (rest ++ tl) (by rw [peekTy_append, htl])
     have e2 := h2 f' (by omega) tl htl
@@ -361,10 +371,10 @@ theorem cSpine : ∀ {m a l b ts t bt nxt}, RSpine m a l b ts t bt nxt →
     rw [pLoop_notin f' _ _ _ _ o i _ _ _ _ _ _ ho hd hi e1]
     exact e2
   | _, _, _, _, _, _, _, _, .ifx (o := o) (tsc := tsc) (el := el) (tse := tse) (rest := rest) ho hd hc hel he hs => by
-    obtain ⟨n1, h1⟩ := cExpr hc
-    obtain ⟨n2, h2⟩ := cExpr he
-    obtain ⟨n3, h3⟩ := cSpine hs
-    refine ⟨max n1 (max n2 n3) + 1, fun f hf tl htl => ?_⟩
+    obtain ⟨n1, b1, h1⟩ := cExpr hc
+    obtain ⟨n2, b2, h2⟩ := cExpr he
+    obtain ⟨n3, b3, h3⟩ := cSpine hs
+    refine ⟨max n1 (max n2 n3) + 1, by lenarith, fun f hf tl htl => ?_⟩
     obtain ⟨f', rfl, hf'⟩ := succ_of_le hf
     have e1 := h1 f' (by omega) (el :: (tse ++ (rest ++ tl))) (by simp [peekTy_cons, hel])
     have e2 := h2 f' (by omega) (rest ++ tl) (by rw [peekTy_append, htl])
@@ -373,9 +383,9 @@ theorem cSpine : ∀ {m a l b ts t bt nxt}, RSpine m a l b ts t bt nxt →
     rw [pLoop_ifx f' _ _ _ _ o el _ _ _ _ _ _ _ _ _ ho hd e1 hel e2]
     exact e3
   | _, _, _, _, _, _, _, _, .index (o := o) (tss := tss) (rest := rest) ho hd hsub hs => by
-    obtain ⟨n1, h1⟩ := cSub hsub
-    obtain ⟨n2, h2⟩ := cSpine hs
-    refine ⟨max n1 n2 + 1, fun f hf tl htl => ?_⟩
+    obtain ⟨n1, b1, h1⟩ := cSub hsub
+    obtain ⟨n2, b2, h2⟩ := cSpine hs
+    refine ⟨max n1 n2 + 1, by lenarith, fun f hf tl htl => ?_⟩
     obtain ⟨f', rfl, hf'⟩ := succ_of_le hf
     have e1 := h1 f' (by omega) (rest ++ tl)
     have e2 := h2 f' (by omega) tl htl
@@ -383,17 +393,17 @@ theorem cSpine : ∀ {m a l b ts t bt nxt}, RSpine m a l b ts t bt nxt →
     rw [pLoop_index f' _ _ _ _ o _ _ _ _ _ _ ho hd e1]
     exact e2
   | _, _, _, _, _, _, _, _, .dot0 (o := o) (n := n) (lp := lp) (rp := rp) (rest := rest) ho hd hn hl hr hs => by
-    obtain ⟨n2, h2⟩ := cSpine hs
-    refine ⟨n2 + 1, fun f hf tl htl => ?_⟩
+    obtain ⟨n2, b2, h2⟩ := cSpine hs
+    refine ⟨n2 + 1, by lenarith, fun f hf tl htl => ?_⟩
     obtain ⟨f', rfl, hf'⟩ := succ_of_le hf
     have e2 := h2 f' hf' tl htl
     simp only [List.cons_append]
     rw [pLoop_dot0 f' _ _ _ _ o n lp rp _ _ _ ho hd hn hl hr]
     exact e2
   | _, _, _, _, _, _, _, _, .dot (o := o) (n := n) (lp := lp) (tsa := tsa) (rest := rest) ho hd hn hl ha hs => by
-    obtain ⟨n1, h1a⟩ := cArgs ha
-    obtain ⟨n2, h2⟩ := cSpine hs
-    refine ⟨max n1 n2 + 1, fun f hf tl htl => ?_⟩
+    obtain ⟨n1, b1, h1a⟩ := cArgs ha
+    obtain ⟨n2, b2, h2⟩ := cSpine hs
+    refine ⟨max n1 n2 + 1, by lenarith, fun f hf tl htl => ?_⟩
     obtain ⟨f', rfl, hf'⟩ := succ_of_le hf
     have e1 := h1a f' (by omega) (rest ++ tl)
     have e2 := h2 f' (by omega) tl htl
@@ -402,8 +412,8 @@ theorem cSpine : ∀ {m a l b ts t bt nxt}, RSpine m a l b ts t bt nxt →
     rw [pLoop_dot f' _ _ _ _ o n lp _ _ _ _ _ ho hd hn hl hne e1]
     exact e2
   | _, _, _, _, _, _, _, _, .pipe0 (o := o) (n := n) (rest := rest) ho hd hn hnl hs => by
-    obtain ⟨n2, h2⟩ := cSpine hs
-    refine ⟨n2 + 1, fun f hf tl htl => ?_⟩
+    obtain ⟨n2, b2, h2⟩ := cSpine hs
+    refine ⟨n2 + 1, by lenarith, fun f hf tl htl => ?_⟩
     obtain ⟨f', rfl, hf'⟩ := succ_of_le hf
     have e2 := h2 f' hf' tl htl
     have hne : peekTy (rest ++ tl) ≠ some .LPAREN := by rw [peekTy_append, htl]; exact hnl
@@ -411,9 +421,9 @@ theorem cSpine : ∀ {m a l b ts t bt nxt}, RSpine m a l b ts t bt nxt →
     rw [pLoop_pipe0 f' _ _ _ _ o n _ _ _ ho hd hn hne]
     exact e2
   | _, _, _, _, _, _, _, _, .pipe (o := o) (n := n) (lp := lp) (tsa := tsa) (rest := rest) ho hd hn hl ha hs => by
-    obtain ⟨n1, h1a⟩ := cArgs ha
-    obtain ⟨n2, h2⟩ := cSpine hs
-    refine ⟨max n1 n2 + 1, fun f hf tl htl => ?_⟩
+    obtain ⟨n1, b1, h1a⟩ := cArgs ha
+    obtain ⟨n2, b2, h2⟩ := cSpine hs
+    refine ⟨max n1 n2 + 1, by lenarith, fun f hf tl htl => ?_⟩
     obtain ⟨f', rfl, hf'⟩ := succ_of_le hf
     have e1 := h1a f' (by omega) (rest ++ tl)
     have e2 := h2 f' (by omega) tl htl
@@ -422,11 +432,19 @@ theorem cSpine : ∀ {m a l b ts t bt nxt}, RSpine m a l b ts t bt nxt →
     exact e2
 
 theorem cArgs : ∀ {close ts args}, RArgs close ts args →
-    ∃ n, ∀ f, n ≤ f → ∀ tl, pArgs f close (ts ++ tl) = .ok (args, tl)
+    ∃ n, n ≤ 2 * ts.length + 1 ∧ ∀ f, n ≤ f → ∀ tl, pArgs f close (ts ++ tl) = .ok (args, tl)
   | _, _, _, .mk (close := close) (ts0 := ts0) (rest := rest) he ht => by
-    obtain ⟨n1, h1⟩ := cExpr he
-    obtain ⟨n2, h2⟩ := cArgsTail ht
-    refine ⟨max n1 n2 + 1, fun f hf tl => ?_⟩
+    obtain ⟨n1, b1, h1⟩ := cExpr he
+    obtain ⟨n2, b2, h2⟩ := cArgsTail ht
+    have hl0 : 1 ≤ ts0.length := by
+      obtain ⟨hd, r, e, _⟩ := rexpr_head he
+      subst e; simp
+    have hl1 : 1 ≤ rest.length := by
+      have := rargsTail_ne ht
+      cases rest with
+      | nil => exact absurd rfl this
+      | cons _ _ => simp
+    refine ⟨max n1 n2 + 1, by lenarith, fun f hf tl => ?_⟩
     obtain ⟨f', rfl, hf'⟩ := succ_of_le hf
     have e1 := h1 f' (by omega) (rest ++ tl) (peekTy_append_ne _ _ (rargsTail_ne ht))
     have e2 := h2 f' (by omega) tl
@@ -434,23 +452,23 @@ theorem cArgs : ∀ {close ts args}, RArgs close ts args →
     exact e2
 
 theorem cArgsTail : ∀ {close acc ts out}, RArgsTail close acc ts out →
-    ∃ n, ∀ f, n ≤ f → ∀ tl, pArgsTail f close acc (ts ++ tl) = .ok (out, tl)
+    ∃ n, n ≤ 2 * ts.length + 1 ∧ ∀ f, n ≤ f → ∀ tl, pArgsTail f close acc (ts ++ tl) = .ok (out, tl)
   | _, _, _, _, .close (close := close) (c := c) hc hne => by
-    refine ⟨1, fun f hf tl => ?_⟩
+    refine ⟨1, by lenarith, fun f hf tl => ?_⟩
     obtain ⟨f', rfl, _⟩ := succ_of_le hf
     rw [List.singleton_append, pArgsTail]
     subst hc
     simp [hne]
   | _, _, _, _, .trailing (close := close) (cm := cm) (c := c) hcm hc => by
-    refine ⟨1, fun f hf tl => ?_⟩
+    refine ⟨1, by lenarith, fun f hf tl => ?_⟩
     obtain ⟨f', rfl, _⟩ := succ_of_le hf
     simp only [List.cons_append, List.nil_append]
     rw [pArgsTail]
     simp [hcm, peekTy_cons, hc]
   | _, _, _, _, .more (close := close) (cm := cm) (ts0 := ts0) (rest := rest) hcm hne he ht => by
-    obtain ⟨n1, h1⟩ := cExpr he
-    obtain ⟨n2, h2⟩ := cArgsTail ht
-    refine ⟨max n1 n2 + 1, fun f hf tl => ?_⟩
+    obtain ⟨n1, b1, h1⟩ := cExpr he
+    obtain ⟨n2, b2, h2⟩ := cArgsTail ht
+    refine ⟨max n1 n2 + 1, by lenarith, fun f hf tl => ?_⟩
     obtain ⟨f', rfl, hf'⟩ := succ_of_le hf
     have e1 := h1 f' (by omega) (rest ++ tl) (peekTy_append_ne _ _ (rargsTail_ne ht))
     have e2 := h2 f' (by omega) tl
@@ -464,11 +482,11 @@ theorem cArgsTail : ∀ {close acc ts out}, RArgsTail close acc ts out →
     exact e2
 
 theorem cDict : ∀ {acc ts out}, RDict acc ts out →
-    ∃ n, ∀ f, n ≤ f → ∀ tl, pDictItems f acc (ts ++ tl) = .ok (out, tl)
+    ∃ n, n ≤ 2 * ts.length + 1 ∧ ∀ f, n ≤ f → ∀ tl, pDictItems f acc (ts ++ tl) = .ok (out, tl)
   | _, _, _, .last (acc := acc) (tsk := tsk) (col := col) (tsv := tsv) (rb := rb) hk hc hv hr => by
-    obtain ⟨n1, h1⟩ := cExpr hk
-    obtain ⟨n2, h2⟩ := cExpr hv
-    refine ⟨max n1 n2 + 1, fun f hf tl => ?_⟩
+    obtain ⟨n1, b1, h1⟩ := cExpr hk
+    obtain ⟨n2, b2, h2⟩ := cExpr hv
+    refine ⟨max n1 n2 + 1, by lenarith, fun f hf tl => ?_⟩
     obtain ⟨f', rfl, hf'⟩ := succ_of_le hf
     have e1 := h1 f' (by omega) (col :: tsv ++ [rb] ++ tl) (by simp [peekTy_cons, hc])
     have e2 := h2 f' (by omega) ([rb] ++ tl) (by simp [peekTy_cons, hr])
@@ -476,9 +494,9 @@ theorem cDict : ∀ {acc ts out}, RDict acc ts out →
     rw [pDictItems]
     simp [e1, eat, hc, e2, hr]
   | _, _, _, .lastComma (acc := acc) (tsk := tsk) (col := col) (tsv := tsv) (cm := cm) (rb := rb) hk hc hv hcm hr => by
-    obtain ⟨n1, h1⟩ := cExpr hk
-    obtain ⟨n2, h2⟩ := cExpr hv
-    refine ⟨max n1 n2 + 1, fun f hf tl => ?_⟩
+    obtain ⟨n1, b1, h1⟩ := cExpr hk
+    obtain ⟨n2, b2, h2⟩ := cExpr hv
+    refine ⟨max n1 n2 + 1, by lenarith, fun f hf tl => ?_⟩
     obtain ⟨f', rfl, hf'⟩ := succ_of_le hf
     have e1 := h1 f' (by omega) (col :: tsv ++ [cm, rb] ++ tl) (by simp [peekTy_cons, hc])
     have e2 := h2 f' (by omega) ([cm, rb] ++ tl) (by simp [peekTy_cons, hcm])
@@ -487,10 +505,10 @@ theorem cDict : ∀ {acc ts out}, RDict acc ts out →
     have hnr : cm.ty ≠ Tk.RBRACE := by rw [hcm]; decide
     simp [e1, eat, hc, e2, hnr, hcm, peekTy_cons, hr]
   | _, _, _, .more (acc := acc) (tsk := tsk) (col := col) (tsv := tsv) (cm := cm) (rest := rest) hk hc hv hcm hne hd => by
-    obtain ⟨n1, h1⟩ := cExpr hk
-    obtain ⟨n2, h2⟩ := cExpr hv
-    obtain ⟨n3, h3⟩ := cDict hd
-    refine ⟨max n1 (max n2 n3) + 1, fun f hf tl => ?_⟩
+    obtain ⟨n1, b1, h1⟩ := cExpr hk
+    obtain ⟨n2, b2, h2⟩ := cExpr hv
+    obtain ⟨n3, b3, h3⟩ := cDict hd
+    refine ⟨max n1 (max n2 n3) + 1, by lenarith, fun f hf tl => ?_⟩
     obtain ⟨f', rfl, hf'⟩ := succ_of_le hf
     have e1 := h1 f' (by omega) (col :: tsv ++ cm :: rest ++ tl) (by simp [peekTy_cons, hc])
     have e2 := h2 f' (by omega) (cm :: rest ++ tl) (by simp [peekTy_cons, hcm])
@@ -503,17 +521,17 @@ theorem cDict : ∀ {acc ts out}, RDict acc ts out →
     exact e3
 
 theorem cParams : ∀ {acc ts out}, RParams acc ts out →
-    ∃ n, ∀ f, n ≤ f → ∀ tl, pParams f acc (ts ++ tl) = .ok (out, tl)
+    ∃ n, n ≤ 2 * ts.length + 1 ∧ ∀ f, n ≤ f → ∀ tl, pParams f acc (ts ++ tl) = .ok (out, tl)
   | _, _, _, .last (acc := acc) (n := n) (rp := rp) hn hr => by
-    refine ⟨1, fun f hf tl => ?_⟩
+    refine ⟨1, by lenarith, fun f hf tl => ?_⟩
     obtain ⟨f', rfl, _⟩ := succ_of_le hf
     simp only [List.cons_append, List.nil_append]
     rw [pParams]
     simp [hn, hr]
   | _, _, _, .more (acc := acc) (ts0 := ts0) (cm := cm) (rest := rest) hnot he hcm hp => by
-    obtain ⟨n1, h1⟩ := cExpr he
-    obtain ⟨n2, h2⟩ := cParams hp
-    refine ⟨max n1 n2 + 1, fun f hf tl => ?_⟩
+    obtain ⟨n1, b1, h1⟩ := cExpr he
+    obtain ⟨n2, b2, h2⟩ := cParams hp
+    refine ⟨max n1 n2 + 1, by lenarith, fun f hf tl => ?_⟩
     obtain ⟨f', rfl, hf'⟩ := succ_of_le hf
     have e1 := h1 f' (by omega) (cm :: rest ++ tl) (by simp [peekTy_cons, hcm])
     have e2 := h2 f' (by omega) tl
@@ -530,10 +548,10 @@ theorem cParams : ∀ {acc ts out}, RParams acc ts out →
 
 
 theorem cSub : ∀ {ts k plain}, RSub ts k plain →
-    ∃ n, ∀ f, n ≤ f → ∀ tl, pSubscript f (ts ++ tl) = .ok ((k, plain), tl)
+    ∃ n, n ≤ 2 * ts.length + 1 ∧ ∀ f, n ≤ f → ∀ tl, pSubscript f (ts ++ tl) = .ok ((k, plain), tl)
   | _, _, _, .idx (ts := ts) (rb := rb) he hr => by
-    obtain ⟨n1, h1⟩ := cExpr he
-    refine ⟨n1 + 1, fun f hf tl => ?_⟩
+    obtain ⟨n1, b1, h1⟩ := cExpr he
+    refine ⟨n1 + 1, by lenarith, fun f hf tl => ?_⟩
     obtain ⟨f', rfl, hf'⟩ := succ_of_le hf
     have e1 := h1 f' hf' (rb :: tl) (by rw [peekTy_cons, hr])
     have hnc := rexpr_peek he (rb :: tl) .COLON rfl
@@ -541,14 +559,14 @@ theorem cSub : ∀ {ts k plain}, RSub ts k plain →
     rw [pSubscript]
     simp [hnc, e1, peekTy_cons, hr]
   | _, _, _, .all (c := c) (rb := rb) hc hr => by
-    refine ⟨1, fun f hf tl => ?_⟩
+    refine ⟨1, by lenarith, fun f hf tl => ?_⟩
     obtain ⟨f', rfl, _⟩ := succ_of_le hf
     simp only [List.cons_append, List.nil_append]
     rw [pSubscript]
     simp [peekTy_cons, hc, hr]
   | _, _, _, .step (c1 := c1) (c2 := c2) (ts := ts) (rb := rb) h1c h2c he hr => by
-    obtain ⟨n1, h1⟩ := cExpr he
-    refine ⟨n1 + 1, fun f hf tl => ?_⟩
+    obtain ⟨n1, b1, h1⟩ := cExpr he
+    refine ⟨n1 + 1, by lenarith, fun f hf tl => ?_⟩
     obtain ⟨f', rfl, hf'⟩ := succ_of_le hf
     have e1 := h1 f' hf' (rb :: tl) (by rw [peekTy_cons, hr])
     simp only [List.append_assoc, List.cons_append, List.nil_append]
@@ -556,8 +574,8 @@ theorem cSub : ∀ {ts k plain}, RSub ts k plain →
     have hn : c2.ty ≠ Tk.RBRACKET := by rw [h2c]; decide
     simp [peekTy_cons, h1c, h2c, hn, e1, eat, hr]
   | _, _, _, .stop (c := c) (ts := ts) (rb := rb) hc he hr => by
-    obtain ⟨n1, h1⟩ := cExpr he
-    refine ⟨n1 + 1, fun f hf tl => ?_⟩
+    obtain ⟨n1, b1, h1⟩ := cExpr he
+    refine ⟨n1 + 1, by lenarith, fun f hf tl => ?_⟩
     obtain ⟨f', rfl, hf'⟩ := succ_of_le hf
     have e1 := h1 f' hf' (rb :: tl) (by rw [peekTy_cons, hr])
     have hn1 := rexpr_peek he (rb :: tl) .RBRACKET rfl
@@ -567,8 +585,8 @@ theorem cSub : ∀ {ts k plain}, RSub ts k plain →
     have hn : rb.ty ≠ Tk.COLON := by rw [hr]; decide
     simp [peekTy_cons, hc, hn1, hn2, e1, hn, eat, hr]
   | _, _, _, .stopColon (c := c) (ts := ts) (c2 := c2) (rb := rb) hc he h2c hr => by
-    obtain ⟨n1, h1⟩ := cExpr he
-    refine ⟨n1 + 1, fun f hf tl => ?_⟩
+    obtain ⟨n1, b1, h1⟩ := cExpr he
+    refine ⟨n1 + 1, by lenarith, fun f hf tl => ?_⟩
     obtain ⟨f', rfl, hf'⟩ := succ_of_le hf
     have e1 := h1 f' hf' (c2 :: rb :: tl) (by rw [peekTy_cons, h2c])
     have hn1 := rexpr_peek he (c2 :: rb :: tl) .RBRACKET rfl
@@ -577,8 +595,8 @@ theorem cSub : ∀ {ts k plain}, RSub ts k plain →
     rw [pSubscript]
     simp [peekTy_cons, hc, hn1, hn2, e1, h2c, eat, hr]
   | _, _, _, .start (ts := ts) (c := c) (rb := rb) he hc hr => by
-    obtain ⟨n1, h1⟩ := cExpr he
-    refine ⟨n1 + 1, fun f hf tl => ?_⟩
+    obtain ⟨n1, b1, h1⟩ := cExpr he
+    refine ⟨n1 + 1, by lenarith, fun f hf tl => ?_⟩
     obtain ⟨f', rfl, hf'⟩ := succ_of_le hf
     have e1 := h1 f' hf' (c :: rb :: tl) (by rw [peekTy_cons, hc])
     have hnc := rexpr_peek he (c :: rb :: tl) .COLON rfl
@@ -587,8 +605,8 @@ theorem cSub : ∀ {ts k plain}, RSub ts k plain →
     have hn : c.ty ≠ Tk.RBRACKET := by rw [hc]; decide
     simp [hnc, e1, peekTy_cons, hn, eat, hc, hr]
   | _, _, _, .startColon (ts := ts) (c := c) (c2 := c2) (rb := rb) he hc h2c hr => by
-    obtain ⟨n1, h1⟩ := cExpr he
-    refine ⟨n1 + 1, fun f hf tl => ?_⟩
+    obtain ⟨n1, b1, h1⟩ := cExpr he
+    refine ⟨n1 + 1, by lenarith, fun f hf tl => ?_⟩
     obtain ⟨f', rfl, hf'⟩ := succ_of_le hf
     have e1 := h1 f' hf' (c :: c2 :: rb :: tl) (by rw [peekTy_cons, hc])
     have hnc := rexpr_peek he (c :: c2 :: rb :: tl) .COLON rfl
@@ -598,9 +616,9 @@ theorem cSub : ∀ {ts k plain}, RSub ts k plain →
     have hn2 : c2.ty ≠ Tk.RBRACKET := by rw [h2c]; decide
     simp [hnc, e1, peekTy_cons, hn, eat, hc, hn2, h2c, hr]
   | _, _, _, .startStop (ts := ts) (c := c) (ts2 := ts2) (rb := rb) he hc he2 hr => by
-    obtain ⟨n1, h1⟩ := cExpr he
-    obtain ⟨n2, h2⟩ := cExpr he2
-    refine ⟨max n1 n2 + 1, fun f hf tl => ?_⟩
+    obtain ⟨n1, b1, h1⟩ := cExpr he
+    obtain ⟨n2, b2, h2⟩ := cExpr he2
+    refine ⟨max n1 n2 + 1, by lenarith, fun f hf tl => ?_⟩
     obtain ⟨f', rfl, hf'⟩ := succ_of_le hf
     have e1 := h1 f' (by omega) (c :: (ts2 ++ (rb :: tl))) (by rw [peekTy_cons, hc])
     have e2 := h2 f' (by omega) (rb :: tl) (by rw [peekTy_cons, hr])
@@ -613,5 +631,243 @@ theorem cSub : ∀ {ts k plain}, RSub ts k plain →
     simp [hnc, e1, peekTy_cons, hn, eat, hc, hm1, hm2, e2, hr]
 
 end
+
+/-! ### statements and programs -/
+
+theorem assign_stops (m : Nat) (a : Assoc) : decide' m a .ASSIGN = .stop := rfl
+theorem shortop_stops (m : Nat) (a : Assoc) : decide' m a .SHORT_OP = .stop := rfl
+theorem newline_stops (m : Nat) (a : Assoc) : decide' m a .NEWLINE = .stop := rfl
+
+/-- a non-empty spine starts with a token its context takes -/
+theorem rspine_peek {m : Nat} {a : Assoc} {l : Op} {b : Bool} {ts : List Token} {t : Op} {bt : Bool} {nxt : LA}
+    (h : RSpine m a l b ts t bt nxt) (tl : List Token) (ty : Tk) (hstop : ∀ m a, decide' m a ty = .stop)
+    (hp : peekTy (ts ++ tl) = some ty) : ts = [] ∧ bt = b := by
+  cases h with
+  | nil _ => exact ⟨rfl, rfl⟩
+  | bin hd _ _ _ =>
+    simp only [List.cons_append, peekTy_cons, Option.some.injEq] at hp
+    rw [hp, hstop] at hd; cases hd
+  | notin ho hd _ _ _ =>
+    simp only [List.cons_append, peekTy_cons, Option.some.injEq] at hp
+    rw [ho] at hp; rw [hp, hstop] at hd; cases hd
+  | ifx ho hd _ _ _ _ =>
+    simp only [List.cons_append, peekTy_cons, Option.some.injEq] at hp
+    rw [ho] at hp; rw [hp, hstop] at hd; cases hd
+  | index ho hd _ _ =>
+    simp only [List.cons_append, peekTy_cons, Option.some.injEq] at hp
+    rw [ho] at hp; rw [hp, hstop] at hd; cases hd
+  | dot0 ho hd _ _ _ _ =>
+    simp only [List.cons_append, peekTy_cons, Option.some.injEq] at hp
+    rw [ho] at hp; rw [hp, hstop] at hd; cases hd
+  | dot ho hd _ _ _ _ =>
+    simp only [List.cons_append, peekTy_cons, Option.some.injEq] at hp
+    rw [ho] at hp; rw [hp, hstop] at hd; cases hd
+  | pipe0 ho hd _ _ _ =>
+    simp only [List.cons_append, peekTy_cons, Option.some.injEq] at hp
+    rw [ho] at hp; rw [hp, hstop] at hd; cases hd
+  | pipe ho hd _ _ _ _ =>
+    simp only [List.cons_append, peekTy_cons, Option.some.injEq] at hp
+    rw [ho] at hp; rw [hp, hstop] at hd; cases hd
+
+theorem atom_not_name (t : Token) (e : Op) (h : atomOf t = some e) : t.ty ≠ .NAME := by
+  intro hn
+  simp [atomOf, hn] at h
+
+/-- in an expression that starts with a NAME, the second token is never `=` / an augmented
+    assignment operator (unless the expression is that bare name and the look-ahead says so) -/
+theorem rexpr_name_second {m : Nat} {a : Assoc} {ts : List Token} {t : Op} {b : Bool} {nxt : LA}
+    (h : RExpr m a ts t b nxt) (tl : List Token) (htl : peekTy tl = nxt) (ty : Tk)
+    (hstop : ∀ m a, decide' m a ty = .stop) (hty : ty ≠ .LPAREN ∧ ty ≠ .LAMBDA) (hn : nxt ≠ some ty ∨ b = true)
+    (n : Token) (r : List Token) (e : ts ++ tl = n :: r) (hname : n.ty = .NAME) : peekTy r ≠ some ty := by
+  cases h with
+  | mk hp hs =>
+    rename_i ts0 t0 tsS
+    cases hp with
+    | atom ha =>
+      simp only [List.cons_append, List.nil_append, List.append_assoc, List.cons.injEq] at e
+      obtain ⟨rfl, _⟩ := e
+      exact absurd hname (atom_not_name _ _ ha)
+    | name ht _ _ =>
+      simp only [List.cons_append, List.nil_append, List.append_assoc, List.cons.injEq] at e
+      obtain ⟨rfl, rfl⟩ := e
+      intro hp
+      obtain ⟨he, hb⟩ := rspine_peek hs tl ty hstop hp
+      subst he
+      rw [List.nil_append, htl] at hp
+      rcases hn with hn | hn
+      · exact hn hp
+      · rw [hb] at hn; cases hn
+    | call0 _ hl _ =>
+      simp only [List.cons_append, List.nil_append, List.append_assoc, List.cons.injEq] at e
+      obtain ⟨rfl, rfl⟩ := e
+      rw [peekTy_cons, hl]; intro hc; exact hty.1 (by injection hc with hc; exact hc.symm)
+    | call _ hl _ =>
+      simp only [List.cons_append, List.nil_append, List.append_assoc, List.cons.injEq] at e
+      obtain ⟨rfl, rfl⟩ := e
+      rw [peekTy_cons, hl]; intro hc; exact hty.1 (by injection hc with hc; exact hc.symm)
+    | lam1 _ hl _ =>
+      simp only [List.cons_append, List.nil_append, List.append_assoc, List.cons.injEq] at e
+      obtain ⟨rfl, rfl⟩ := e
+      rw [peekTy_cons, hl]; intro hc; exact hty.2 (by injection hc with hc; exact hc.symm)
+    | paren hl _ _ =>
+      simp only [List.cons_append, List.append_assoc, List.cons.injEq] at e
+      obtain ⟨rfl, _⟩ := e; rw [hl] at hname; cases hname
+    | lamN hl _ _ _ _ _ =>
+      simp only [List.cons_append, List.append_assoc, List.cons.injEq] at e
+      obtain ⟨rfl, _⟩ := e; rw [hl] at hname; cases hname
+    | list0 hl _ =>
+      simp only [List.cons_append, List.append_assoc, List.cons.injEq] at e
+      obtain ⟨rfl, _⟩ := e; rw [hl] at hname; cases hname
+    | list hl _ =>
+      simp only [List.cons_append, List.append_assoc, List.cons.injEq] at e
+      obtain ⟨rfl, _⟩ := e; rw [hl] at hname; cases hname
+    | dict0 hl _ =>
+      simp only [List.cons_append, List.append_assoc, List.cons.injEq] at e
+      obtain ⟨rfl, _⟩ := e; rw [hl] at hname; cases hname
+    | dict hl _ =>
+      simp only [List.cons_append, List.append_assoc, List.cons.injEq] at e
+      obtain ⟨rfl, _⟩ := e; rw [hl] at hname; cases hname
+    | neg hl _ =>
+      simp only [List.cons_append, List.append_assoc, List.cons.injEq] at e
+      obtain ⟨rfl, _⟩ := e; rw [hl] at hname; cases hname
+    | not hl _ =>
+      simp only [List.cons_append, List.append_assoc, List.cons.injEq] at e
+      obtain ⟨rfl, _⟩ := e; rw [hl] at hname; cases hname
+
+theorem start_not (ty : Tk) (h : startTk ty = true) : ty ≠ .NEWLINE ∧ ty ≠ .DEL := by
+  constructor <;> (intro hc; subst hc; cases h)
+
+theorem stmtEnd_head {nxt : LA} (hend : stmtEnd nxt) {o : Token} {r : List Token} (htl : peekTy (o :: r) = nxt) :
+    o.ty = .NEWLINE := by
+  rw [peekTy_cons] at htl
+  rcases hend with h | h
+  · rw [h] at htl; cases htl
+  · rw [h] at htl; injection htl
+
+theorem cStmt {ts : List Token} {s : Option Op} {nxt : LA} (h : RStmt ts s nxt) :
+    ∀ f, 2 * ts.length + 1 ≤ f → ∀ tl, peekTy tl = nxt → pStatement f (ts ++ tl) = .ok (s, tl) := by
+  intro f hf tl htl
+  cases h with
+  | empty hend =>
+    rw [List.nil_append]
+    cases tl with
+    | nil => rfl
+    | cons o r =>
+      have ho : o.ty = .NEWLINE := stmtEnd_head hend htl
+      unfold pStatement
+      simp only [ho, if_true]
+  | expr hend he =>
+    rename_i e b
+    obtain ⟨n1, b1, h1⟩ := cExpr he
+    have e1 := h1 f (by omega) tl htl
+    obtain ⟨hd, r, hts, hst⟩ := rexpr_head he
+    have hcons : ts ++ tl = hd :: (r ++ tl) := by rw [hts]; rfl
+    obtain ⟨hnl, hdel⟩ := start_not _ hst
+    have hna : nxt ≠ some .ASSIGN := by rcases hend with h | h <;> (rw [h]; simp)
+    have hns : nxt ≠ some .SHORT_OP := by rcases hend with h | h <;> (rw [h]; simp)
+    have ha : ¬ (hd.ty = .NAME ∧ peekTy (r ++ tl) = some .ASSIGN) := fun hc =>
+      rexpr_name_second he tl htl .ASSIGN assign_stops ⟨by decide, by decide⟩ (Or.inl hna) hd _ hcons hc.1 hc.2
+    have hs : ¬ (hd.ty = .NAME ∧ peekTy (r ++ tl) = some .SHORT_OP) := fun hc =>
+      rexpr_name_second he tl htl .SHORT_OP shortop_stops ⟨by decide, by decide⟩ (Or.inl hns) hd _ hcons hc.1 hc.2
+    rw [hcons] at e1 ⊢
+    unfold pStatement
+    simp only [hnl, if_false, ha, hs, hdel, e1]
+    cases tl with
+    | nil => cases b <;> cases indexParts e <;> rfl
+    | cons o r2 =>
+      have ho : o.ty = .NEWLINE := stmtEnd_head hend htl
+      cases b <;> cases hi : indexParts e <;> simp [ho]
+  | assign hend hn heq he =>
+    rename_i n eq ts' v b
+    obtain ⟨n1, b1, h1⟩ := cExpr he
+    have e1 := h1 f (by simp at hf; omega) tl htl
+    simp only [List.cons_append]
+    unfold pStatement
+    have hnl : n.ty ≠ .NEWLINE := by rw [hn]; decide
+    simp [hnl, hn, peekTy_cons, heq, e1]
+  | short hend hn ho hk he =>
+    rename_i n o k ts' v b
+    obtain ⟨n1, b1, h1⟩ := cExpr he
+    have e1 := h1 f (by simp at hf; omega) tl htl
+    simp only [List.cons_append]
+    unfold pStatement
+    have hnl : n.ty ≠ .NEWLINE := by rw [hn]; decide
+    have hoa : o.ty ≠ .ASSIGN := by rw [ho]; decide
+    simp [hnl, hn, peekTy_cons, ho, hoa, hk, e1]
+  | del hend hd he hi =>
+    rename_i d ts' e c k
+    obtain ⟨n1, b1, h1⟩ := cExpr he
+    have e1 := h1 f (by simp at hf; omega) tl htl
+    simp only [List.cons_append]
+    unfold pStatement
+    have hnl : d.ty ≠ .NEWLINE := by rw [hd]; decide
+    have hnn : d.ty ≠ .NAME := by rw [hd]; decide
+    simp [hnl, hnn, hd, e1, hi]
+  | setitem hend he hi heq hv =>
+    rename_i ts0 e c k eq tsv v b
+    obtain ⟨n1, b1, h1⟩ := cExpr he
+    obtain ⟨n2, b2, h2⟩ := cExpr hv
+    have e1 := h1 f (by simp at hf; omega) (eq :: (tsv ++ tl)) (by rw [peekTy_cons, heq])
+    have e2 := h2 f (by simp at hf; omega) tl htl
+    obtain ⟨hd, r, hts, hst⟩ := rexpr_head he
+    have hcons : ts0 ++ (eq :: (tsv ++ tl)) = hd :: (r ++ (eq :: (tsv ++ tl))) := by rw [hts]; rfl
+    obtain ⟨hnl, hdel⟩ := start_not _ hst
+    have ha : ¬ (hd.ty = .NAME ∧ peekTy (r ++ (eq :: (tsv ++ tl))) = some .ASSIGN) := fun hc =>
+      rexpr_name_second he (eq :: (tsv ++ tl)) (by rw [peekTy_cons, heq]) .ASSIGN assign_stops ⟨by decide, by decide⟩ (Or.inr rfl) hd _ hcons hc.1 hc.2
+    have hs : ¬ (hd.ty = .NAME ∧ peekTy (r ++ (eq :: (tsv ++ tl))) = some .SHORT_OP) := fun hc =>
+      rexpr_name_second he (eq :: (tsv ++ tl)) (by rw [peekTy_cons, heq]) .SHORT_OP shortop_stops ⟨by decide, by decide⟩ (Or.inr rfl) hd _ hcons hc.1 hc.2
+    simp only [List.append_assoc, List.cons_append]
+    rw [hcons] at e1 ⊢
+    unfold pStatement
+    simp only [hnl, if_false, ha, hs, hdel, e1, hi, heq, if_true, e2]
+  | setop hend he hi ho hv =>
+    rename_i ts0 e c k o tsv v b
+    obtain ⟨n1, b1, h1⟩ := cExpr he
+    obtain ⟨n2, b2, h2⟩ := cExpr hv
+    have e1 := h1 f (by simp at hf; omega) (o :: (tsv ++ tl)) (by rw [peekTy_cons, ho])
+    have e2 := h2 f (by simp at hf; omega) tl htl
+    obtain ⟨hd, r, hts, hst⟩ := rexpr_head he
+    have hcons : ts0 ++ (o :: (tsv ++ tl)) = hd :: (r ++ (o :: (tsv ++ tl))) := by rw [hts]; rfl
+    obtain ⟨hnl, hdel⟩ := start_not _ hst
+    have ha : ¬ (hd.ty = .NAME ∧ peekTy (r ++ (o :: (tsv ++ tl))) = some .ASSIGN) := fun hc =>
+      rexpr_name_second he (o :: (tsv ++ tl)) (by rw [peekTy_cons, ho]) .ASSIGN assign_stops ⟨by decide, by decide⟩ (Or.inr rfl) hd _ hcons hc.1 hc.2
+    have hs : ¬ (hd.ty = .NAME ∧ peekTy (r ++ (o :: (tsv ++ tl))) = some .SHORT_OP) := fun hc =>
+      rexpr_name_second he (o :: (tsv ++ tl)) (by rw [peekTy_cons, ho]) .SHORT_OP shortop_stops ⟨by decide, by decide⟩ (Or.inr rfl) hd _ hcons hc.1 hc.2
+    have hoa : o.ty ≠ .ASSIGN := by rw [ho]; decide
+    simp only [List.append_assoc, List.cons_append]
+    rw [hcons] at e1 ⊢
+    unfold pStatement
+    simp only [hnl, if_false, ha, hs, hdel, e1, hi, hoa, ho, if_true, e2]
+    rw [if_neg (by decide)]
+
+theorem cCode {acc : List Op} {ts : List Token} {out : List Op} (h : RCode acc ts out) :
+    ∀ n f, ts.length + 1 ≤ n → 2 * ts.length + 1 ≤ f → pCode n f acc ts = .ok out := by
+  induction h with
+  | @last acc ts s hs =>
+    intro n f hn hf
+    have e1 := cStmt hs f hf [] rfl
+    rw [List.append_nil] at e1
+    cases n with
+    | zero => omega
+    | succ n =>
+      unfold pCode
+      simp only [e1]
+      cases s <;> rfl
+  | @more acc ts s nl rest out hs hnl _ ih =>
+    intro n f hn hf
+    have e1 := cStmt hs f (by simp at hf; omega) (nl :: rest) (by rw [peekTy_cons, hnl])
+    cases n with
+    | zero => omega
+    | succ n =>
+      unfold pCode
+      simp only [e1, hnl, if_true]
+      have := ih n f (by simp at hn; omega) (by simp at hf; omega)
+      cases s <;> exact this
+
+/-- **completeness of the parser for whole programs**: every token list the levelled grammar derives as a program
+    is accepted by `parseTokens`, with exactly the derived tree -/
+theorem complete {ts : List Token} {out : List Op} (h : RCode [] ts out) : parseTokens ts = .ok (.code out) := by
+  unfold parseTokens
+  simp only [cCode h (ts.length + 1) (4 * ts.length + 8) (by omega) (by omega)]
 
 end Sq
